@@ -25,40 +25,44 @@ CLAIMS = {
         text="_is_wanted_addrs == the property's predicate (sound and complete, one equality) for abstract block/known lists of any size, all enforcement settings, any active gateway; the receive and send gates (filter mixin and PortProtocol.send_cmd) hand on iff wanted; _set_active_hgi never activates a blocked id; Gateway.get_device raises LookupError and creates nothing for blocked/unlisted ids: SMT-discharged on the real functions",
         note="trusted: pyvc semantics incl. abstract id sets (membership = uninterpreted predicate), z3; _BaseProtocol.pkt_received/send_cmd, device_factory and _send_impersonation_alert are environment stubs; not decided: the dispatcher's routing after the LookupError fence; noted, not claimed: the impersonation alert (a 7FFF from the gateway itself) is transmitted before the filter refuses a command"),
     "C14": dict(cat="other", ref="DESIGN.md 5/C14",
-        text="partial: expiry arithmetic of Message._expired (exact threshold 2L+3s, monotone, payload-derived 1F09 lifetimes incl. 0), pkt_lifespan == the lifetime table, the store rule of _MessageDB._handle_msg over the whole (code,verb,ctx) view, and the read rule of _msg_value_msg are SMT-discharged postconditions of the real functions; the read rule's 'expired => not reported' clause is a listed known finding",
-        note="trusted: pyvc semantics (datetime/timedelta model, float division of integer microseconds compared exactly with 2.0), z3; not decided: MultiZone._handle_msg routing of array payloads to zones, _delete_msg over the entity graph"),
+        text="partial: expiry arithmetic of Message._expired (exact threshold 2L+3s, monotone, payload-derived 1F09 lifetimes incl. 0, no memory of a clock that was behind -- with one listed known finding at the instant the fraction equals the -1.0 sentinel), pkt_lifespan == the lifetime table, the store rule of _MessageDB._handle_msg over the whole (code,verb,ctx) view, the read rule of _msg_value_msg ('expired => not reported' is a listed known finding), detect_array_fragment merges only within one device, _delete_msg deletes only the message given: SMT-discharged postconditions of the real functions",
+        note="trusted: pyvc semantics (datetime/timedelta model, float division of integer microseconds compared exactly), z3; not decided: MultiZone._handle_msg routing of array payloads to zones"),
     "C13": dict(cat="other", ref="DESIGN.md 5/C13",
-        text="partial: two named mechanisms. (1) Message._expired is total (no exception for any message, incl. payload-derived zero lifespans; discharged under C14's expiry harnesses, re-run here); (2) Gateway.get_state and _restore_cached_packets resume the engine on every exit -- return, an exception from any callee, cancellation at any await: postcondition proved by symbolic execution with every callee/await allowed to raise, plus a syntactic try/finally obligation",
-        note="trusted: pyvc semantics, z3; callees (_pause/_resume, schema, device state DBs, protocol/transport factories) are contracts that may raise at will; NOT decided: 'every public view returns without raising' for arbitrary packet histories (dynamic dispatch over ~60 entity classes, heap-shaped state)"),
+        text="partial: (1) Gateway.get_state and _restore_cached_packets resume the engine on every exit (return, an exception from any callee, cancellation at any await); (2) Engine._pause/_resume and Gateway._pause/_resume/get_state on the real engine state for every sequence of up to 4 calls: refused iff already (not) paused, handler / read-only flag / discovery flag restored, the engine lock never left held; (3) value views: the _msg_value_msg lookup every thin view goes through, System.heat_demands / relay_demands, SystemBase.heat_demand, Zone.heat_demand over real TrvActuators, _transform -- on real Messages decoded from symbolic frames (sentinels included) return a value or None and never raise; (4) Message._expired is total; detect_array_fragment merges only within one device -- SMT-discharged on the real functions",
+        note="trusted: pyvc semantics, z3; lock/protocol/transport/loop are typestate contracts; about 150 composite views (schema/params/status dictionaries, OpenTherm views) are NOT under contract -- they only have a bounded native sweep (system logs replayed into a real Gateway with one schema-conforming sentinel-biased payload mutated, every view evaluated), never counted as proved; histories are not quantified over"),
     "C18": dict(cat="other", ref="DESIGN.md 5/C18",
-        text="partial: the 'leaves nothing behind' clause. If the zone lock was obtained, Schedule._get_schedule and set_schedule release it on every exit (normal, error from any send or version query, cancellation by the caller's timeout): proved by symbolic execution of the real coroutine with every await allowed to raise (two fragment exchanges unrolled) and by a syntactic try/finally obligation covering any number of exchanges",
-        note="trusted: pyvc semantics, z3; tcs._obtain_lock, _schedule_version, async_send_cmd, Message() and _update_payload_set are contracts; NOT decided: loss/timeout patterns, that a returned schedule is never stitched from two versions, concurrent transfers"),
+        text="partial: Schedule._get_schedule and set_schedule release the zone lock on every exit (normal, error from any send or version query, cancellation); a failed or cancelled write leaves the cached schedule as it was; and the fetch loop with the real _update_payload_set / _proc_payload_set, from any fragment set left behind (0-3 slots, each empty / stale / current) while the controller's schedule changes at most once at any exchange (0-3 -> 0-3 fragments): ends with a schedule of ONE version at the change counter read, or a protocol error, never a RuntimeError, and never writes to the empty set zones share or to another zone's set -- SMT-discharged on the real coroutines; plus the syntactic try/finally obligation",
+        note="trusted: pyvc semantics, z3; tcs._obtain_lock, _schedule_version, async_send_cmd, Message() are contracts that may raise/cancel at will; fragz_to_full_sched by contract: a set stitched from two versions is rejected (zlib's checksum, A12); NOT decided: termination when the schedule keeps changing (left to the caller's timeout), more than one change per transfer, concurrent transfers beyond the lock"),
     "C19": dict(cat="other", ref="DESIGN.md 5/C19",
         text="the map contracts of FaultLog._insert_into_map (null entry, reported entry at the reported position, strictly newest-first, nothing invented, positions within 0..62, read-through step, push-down), handle_msg/_process_msg (never raises, map timestamps always have their log entry) and the four views (never raise) are SMT-discharged on the real functions for views of at most 3 entries with unbounded indexes/timestamps; the inductive clause ('no entry believed lower than it is') and the push-down clause fail on the unchanged tree and are listed known findings with input classes outside which they are re-proved",
         note="bounded in one dimension: the number of entries of the view (<= 3; the shift heuristic only compares relative positions); trusted: pyvc semantics, z3; FaultLogEntry.from_msg by contract; timestamps are integers (the code only compares them); NOT decided: get_faultlog's request loop (_is_getting / _is_current flags), whole histories"),
     "C03": dict(cat="proof", ref="DESIGN.md 5/C03",
         text="for every entry of CODE_API_MAP and symbolic arguments over the documented domain: the command has the registered verb/code, its payload is in the schema regex's language, the library's own decoder accepts the frame and (where stated) the decoded payload carries the values passed in; out-of-domain zone indexes are refused -- SMT-discharged on the real constructors, Command.__init__ and parsers; six constructors violate it on the unchanged tree and are listed known findings",
         note="trusted: pyvc semantics, z3; the temperature codec and hex_to_str by their C04/C05 contracts (modular); get_opentherm_data over all 256 msg-ids by an exhaustive native enumeration (its parity computation is outside the solver's reach) -- complete for that finite domain but not an SMT proof; set_fan_param / put_bind only for sample parameters / code lists"),
+    "C09": dict(cat="other", ref="DESIGN.md 5/C09",
+        text="partial, bounded in depth: the real ProtocolContext (send_cmd, _check_buffer_for_cmd, set_state with effect_state and expire_state_on_timeout, _send_cmd, the state classes) is executed against an event-loop contract that only admits schedules asyncio can produce, with the real coroutines suspended at their awaits; for EVERY episode of at most 3 outside events (echo / reply / unrelated packet arrives, the running timer expires, the caller's timeout fires) interleaved anywhere with the loop's queued work, with one caller or two: no exception reaches the loop's exception handler (no internal consistency check trips), every caller is answered, when traffic stops the sender is idle with nothing in flight or queued, and a fresh command is then transmitted -- SMT-discharged over all those schedules",
+        note="bounded: episodes of <= 3 events from an idle sender, nothing is claimed beyond; loop / Future / Task / wait_for / sleep are contracts from CPython 3.12's ordering rules (an assumption); disconnect/reconnect, write failures and whole-history liveness are NOT decided"),
+    "C07": dict(cat="other", ref="DESIGN.md 5/C07",
+        text="partial: over the same bounded episodes as C09 (one or two callers, <= 3 outside events, any realisable interleaving) a send returns a packet of ITS OWN command -- the reply when one is awaited -- or raises an error of the protocol-error family, never another command's packet, and fails without its caller's timeout only after its whole retry budget was transmitted; structurally, send_cmd suspends at exactly one place, asyncio.wait_for(fut, min(qos.timeout, 20 s))",
+        note="'never hangs / finishes within the caller's timeout' rests on asyncio.wait_for's contract (assumed) plus the structural obligation; header correlation itself is C06; the impersonation notice, transport faults and more than two concurrent callers are NOT decided"),
     "C08": dict(cat="other", ref="DESIGN.md 5/C08",
-        text="partial: ProtocolContext.__init__ caps (retry limit 3, buffer 32); _check_buffer_for_cmd (nothing dequeued while a future is pending, queue order, done futures skipped, tx_limit = 1 + min(max_retries, limit), exactly one send); and, by executing the real set_state / effect_state / expire_state_on_timeout / _send_cmd step by step against typestate contracts of the loop, futures and queue, for every loss pattern over the attempts and all max_retries 0..5: at most 1 + min(max_retries,3) transmissions, exactly that many before a failure, waits of 1/2/4/8 x the timeout, the arriving packet completes the send, nothing is sent after the caller is answered -- SMT-discharged",
-        note="trusted: pyvc semantics; asyncio loop (FIFO call_soon, tasks), Future and PriorityQueue are typestate contracts written in the harness (assumption A13); one command at a time (the single-context invariant is structural: _fut pending blocks dequeue); NOT decided: that the budget is reached when the caller's timeout allows (liveness), real-time spacing, start order under equal priority AND equal dt.now(), concurrent callers timing out while queued"),
+        text="partial: ProtocolContext.__init__ caps (retry limit 3, buffer 32); _check_buffer_for_cmd (nothing dequeued while a future is pending, queue order, done futures skipped, tx_limit, exactly one send); by executing the real set_state / effect_state / expire_state_on_timeout / _send_cmd step by step against typestate contracts of the loop, futures and queue, for every loss pattern over the attempts and all max_retries 0..5: at most 1 + min(max_retries,3) transmissions, exactly that many before a failure, waits of 1/2/4/8 x the timeout, the arriving packet completes the send, nothing is sent after the caller is answered; send_cmd queues (priority, time, command, qos, future), waits min(qos.timeout, 20 s), and a caller timing out while queued neither disturbs an equal command in flight nor the queue; QosParams keeps max_retries (0 stays 0) -- SMT-discharged",
+        note="trusted: pyvc semantics; asyncio loop (FIFO call_soon, tasks), Future, wait_for and PriorityQueue are typestate contracts written in the harness (assumption A13); NOT decided: that the budget is reached when the caller's timeout allows (liveness), real-time spacing, start order under equal priority AND equal dt.now(), more than two callers"),
     "C11": dict(cat="other", ref="DESIGN.md 5/C11",
-        text="partial: per-call contracts of the real duty-cycle wrapper (the closure produced by the real decorator) from an arbitrary bucket state -- top-up creates no bits and caps at 60 s worth, a write waits exactly (size - level)/FILL or goes at once, exactly one debit per write even when the write raises, frame cost 330 + 10 bits/char -- and of MqttTransport.write_frame (tokens capped, over-budget write dropped not queued, debt slept off, one token per accepted write), over real-valued time and bits; plus the syntactic obligation that PortTransport.write_frame is wrapped; the window bound follows by the telescoping lemma stated in DESIGN.md (paper lemma)",
-        note="trusted: pyvc semantics incl. float operations over-approximated by the relative-error bound; perf_counter and asyncio.sleep are contracts (A14: non-decreasing real time, a sleep lasts at least its argument); rely/guarantee across awaits (other callers between a call's check and its debit) only through the paper lemma's 'pending' term; NOT decided: eventual, once-only, in-order delivery; the MIN_INTER_WRITE_GAP semaphore"),
+        text="partial: per-call contracts of the real duty-cycle wrapper from an arbitrary bucket state (top-up creates no bits and caps at 60 s worth, a write waits exactly (size - level)/FILL or goes at once, exactly one debit per write even when the write raises, a debit made by another caller during the write is not lost, frame cost 330 + 10 bits/char) and of MqttTransport.write_frame (tokens capped, over-budget write dropped not queued, debt slept off, one token per accepted write, the refill clock advances on every call), over real-valued time and bits; plus syntactic obligations (PortTransport.write_frame is wrapped outermost, the gap permit is a BoundedSemaphore); the window bound follows by the telescoping lemma stated in DESIGN.md (paper lemma)",
+        note="trusted: pyvc semantics incl. float operations over-approximated by the relative-error bound; perf_counter and asyncio.sleep are contracts (A14); NOT decided: eventual, once-only, in-order delivery; the timing of the MIN_INTER_WRITE_GAP task"),
     "C20": dict(cat="other", ref="DESIGN.md 5/C20",
-        text="partial: for every waiting state class, _wait_for_fut_result -- whatever happened before the wait ends (message arrived, nothing arrived, the state's own timer already fired) -- returns the message and moves on, or raises an error of the binding-error family with the context in DevHasFailedBinding (no longer binding), one transition per wait; put_bind, is_phase (command and packet) and parser_1fc9 agree on the phase and the four phases are mutually exclusive on all 1FC9/10E0 frames: SMT-discharged on the real functions",
-        note="trusted: pyvc semantics; asyncio.wait_for / shield / Future are typestate contracts (CPython >= 3.11 semantics: wait_for cancels the awaited future on timeout); NOT decided: interleavings of duplicated, echoed and third-party frames, the 3 s / 5 s timing, the send-retry states (_DevIsReadyToSendCmd)"),
+        text="partial: for every waiting state class, _wait_for_fut_result -- whatever happened before the wait ends (message arrived, nothing arrived, the state's own timer already fired) -- returns the message and moves on, or raises an error of the binding-error family with the context in DevHasFailedBinding, one transition per wait, the step's timer cancelled; put_bind, is_phase (command and packet) and parser_1fc9 agree on the phase and the four phases are mutually exclusive on all 1FC9/10E0 frames; the context hands every binding packet it sees (sent or received) to the current state: SMT-discharged on the real functions",
+        note="trusted: pyvc semantics; asyncio.wait_for / shield / Future are typestate contracts (CPython >= 3.11 semantics); NOT decided: interleavings of duplicated, echoed and third-party frames, the 3 s / 5 s timing, the send-retry states (_DevIsReadyToSendCmd)"),
     "C16": dict(cat="other", ref="DESIGN.md 5/C16",
-        text="partial: (1) the textual storage format -- Packet.from_dict(repr(p)[:26], repr(p)[27:]) is an equal packet with the same timestamp for every accepted packet of the enumerated shapes; (2) the snapshot filter of Gateway.get_state keeps no request, no write other than a W|0404 longer than 7 bytes, and (unless asked) no expired packet -- the last clause with the listed known finding for 313F; SMT-discharged on the real functions",
-        note="trusted: pyvc semantics, z3; pkt_lifespan by its call-site contract; device/system message stores are contracts; NOT decided: the gateway-level fixpoint snapshot -> fresh gateway -> snapshot, idempotence of restoring twice"),
+        text="partial: (1) the textual storage format -- Packet.from_dict(repr(p)[:26], repr(p)[27:]) is an equal packet with the same timestamp for every accepted packet of the enumerated shapes, also on a whole-second timestamp; (2) the snapshot filter of Gateway.get_state keeps no request, no write other than a W|0404 longer than 7 bytes, and (unless asked) no expired packet (313F: listed known finding); (3) a restored packet expires by its age however far behind the clock was when it was first read; (4) storing a packet an entity already holds adds and removes no slot -- SMT-discharged on the real functions",
+        note="trusted: pyvc semantics, z3; pkt_lifespan by its call-site contract; device/system message stores are contracts; NOT decided: the gateway-level fixpoint snapshot -> fresh gateway -> snapshot"),
     "C17": dict(cat="other", ref="DESIGN.md 5/C17",
-        text="partial: per-switchpoint inverse (_struct_unpack o _struct_pack == id for all zones, days, the 288 times, setpoints 5.00-35.00 on the 0.01 grid and on/off), time-of-day text inverse, lossless 82-character fragmenting, Command.set_schedule_fragment -> schema-valid W|0404 of <= 48 bytes that parser_0404 decodes to the same fragment, and the payload-set invariant of _update_payload_set (slot i = fragment i+1, order-independent, idempotent): SMT-discharged",
-        note="trusted: pyvc semantics incl. the struct model for '< x B H', z3; zlib round trip assumed (A12); whole-week loops (day grouping in fragz_to_full_sched) are not under contract -- a bounded native sweep would be the stand-in; NOT decided: that a mixed fragment set is always rejected (rests on zlib's checksum)"),
+        text="partial: per-switchpoint inverse (_struct_unpack o _struct_pack == id for all zones, days, the 288 times, setpoints 5.00-35.00 on the 0.01 grid and on/off), time-of-day text inverse, the real decode loop of fragz_to_full_sched on the bytes _struct_pack produced gives back the schedule (1-3 days x 1-3 switchpoints unrolled), Command.set_schedule_fragment -> schema-valid W|0404 of <= 48 bytes that parser_0404 decodes to the same fragment (zones, HW, FA), and the payload-set invariant of _update_payload_set incl. the restart when zlib rejects a full set: SMT-discharged",
+        note="trusted: pyvc semantics incl. the struct model for '< x B H', z3; zlib round trip assumed (A12); the decode loop is bounded by the unrolling stated; fragment sizes of real compressed schedules only by a bounded native sweep"),
 }
 
 NA = {
-    "C07": "Termination in bounded time of every send_cmd under all asyncio schedules and transport faults is a liveness property over task interleavings; no per-call contract expresses it (safety fragments are claimed under C06/C08).",
-    "C09": "'Returns to idle and keeps serving after any episode' is a whole-history/liveness property of the event loop; needs an inductive invariant over the loop's FIFO order that per-function contracts over-approximate (spurious interleavings).",
     "C12": "Convergence of discovery against an arbitrary controller is a closed-loop liveness property over ~60 dynamically dispatched entity classes, timers and an external device; no per-function contract states it.",
     "C15": "Quantifies over reachable shapes of a mutable object graph, a third-party validator (voluptuous) and gateway re-construction; no heap/ownership logic for Python is available here.",
 }
